@@ -31,6 +31,18 @@ def sh(cmd, cwd=None, env=None, timeout=1500):
     return r.returncode, r.stdout + r.stderr
 
 
+def apply_patch(wt, patch):
+    """git apply; if the tree moved on since the patch was made (later fix commits), fall back to a
+    3-way merge using the blob ids recorded in the patch."""
+    rc, o = sh(f"git -C {wt} apply {patch}")
+    if rc:
+        rc, o2 = sh(f"git -C {wt} apply --3way {patch}")
+        o += o2
+        if not rc:
+            sh(f"git -C {wt} reset -q")
+    return rc, o
+
+
 def main(argv):
     all_checks = "--all-checks" in argv
     tier = "thorough" if "--thorough" in argv else "quick"
@@ -58,7 +70,7 @@ def main(argv):
             demo = os.path.join(sdir, meta.get("demo", "demo.py"))
             rc0, _ = sh(f"{PY} {demo}", cwd=tmp, env=env)
             res["demo_unpatched_exit"] = rc0
-            rc, o = sh(f"git -C {wt} apply {os.path.join(sdir, 'patch.diff')}")
+            rc, o = apply_patch(wt, os.path.join(sdir, 'patch.diff'))
             if rc:
                 res["apply"] = "FAILED: " + o[-300:]
                 results[sid] = res
